@@ -576,6 +576,13 @@ func main() {
 	for _, s := range scanRegistries(fset, httpFiles, bad) {
 		rgl = append(rgl, fmt.Sprintf("    ⟨%s, %s, %s, %s, %s⟩", ex.LeanString(s.vr), ex.LeanString(s.fn), ex.LeanString(s.op), ex.LeanString(s.key), ex.LeanString(s.keyIs)))
 	}
+	var cbl, scl []string
+	for _, b := range scanCaptureBinds(nodeFiles, bad) {
+		cbl = append(cbl, fmt.Sprintf("    ⟨%s, %s, %s, %s, %s⟩", ex.LeanString(b.fn), ex.LeanString(b.env), ex.LeanString(b.op), ex.LeanString(b.guard), ex.LeanString(b.text)))
+	}
+	for _, c := range scanSlotCopies(a.Repo, bad) {
+		scl = append(scl, fmt.Sprintf("    ⟨%s, %s⟩", ex.LeanString(c.typ), ex.LeanString(c.clone)))
+	}
 	sort.Strings(shape)
 	var sl []string
 	for i, s := range shape {
@@ -583,7 +590,7 @@ func main() {
 			sl = append(sl, ex.LeanString(s))
 		}
 	}
-	fmt.Fprintf(&sb, "\n  ],\n  nodeWrites := [\n%s\n  ],\n  depthGuards := [\n%s\n  ],\n  vmCounters := [\n%s\n  ],\n  registries := [\n%s\n  ],\n  shape := [%s]\n}\n\nend Generated.C11Superglobals\n", strings.Join(nwl, ",\n"), strings.Join(gl, ",\n"), strings.Join(ctl, ",\n"), strings.Join(rgl, ",\n"), strings.Join(sl, ", "))
+	fmt.Fprintf(&sb, "\n  ],\n  nodeWrites := [\n%s\n  ],\n  depthGuards := [\n%s\n  ],\n  vmCounters := [\n%s\n  ],\n  registries := [\n%s\n  ],\n  captureBinds := [\n%s\n  ],\n  slotCopies := [\n%s\n  ],\n  shape := [%s]\n}\n\nend Generated.C11Superglobals\n", strings.Join(nwl, ",\n"), strings.Join(gl, ",\n"), strings.Join(ctl, ",\n"), strings.Join(rgl, ",\n"), strings.Join(cbl, ",\n"), strings.Join(scl, ",\n"), strings.Join(sl, ", "))
 	if err := ex.WriteIfChanged(a.Out, "C11Superglobals.lean", sb.String()); err != nil {
 		fmt.Fprintln(os.Stderr, err)
 		os.Exit(1)
